@@ -215,7 +215,7 @@ def check_cli(acc, tmp, docs, src, tier):
     for recursive in (False, True):
         root = os.path.join(tmp, 'dir_r' if recursive else 'dir')
         layout = {'a.krn': names[0], 'b.kern': names[1 % len(names)], 'bad.krn': 'with-error', 'sub/c.krn': names[2 % len(names)],
-                  'sub/deep/d.kern': names[3 % len(names)], 'sub/e.krn': names[4 % len(names)]}
+                  'sub/deep/d.kern': names[3 % len(names)], 'sub/e.krn': names[4 % len(names)], 'sub/a.krn': names[5 % len(names)], 'sub/deep/a.krn': names[6 % len(names)]}
         for rel, n in layout.items():
             p = os.path.join(root, rel)
             os.makedirs(os.path.dirname(p), exist_ok=True)
